@@ -96,7 +96,14 @@ class CHECK(vlib.Check):
     rule = ("operation scripts (checks/c01.py grammar) building Messages over every field type, counts 0/1/2/3.., nesting, raw type "
             "codes, empty strings / zero-length raw items, non-flattenable fields in between; for each: C++ bytes and content vs the "
             "Coq reference spec (byte-identical), C mini and micro parse/build/serialise vs C++, Python parse/build/serialise vs "
-            "C++, the stream frame of the four gateways; every case's three-frame stream is sent by and fed (in segments of 1.."
+            "C++, the stream frame of the four gateways; the MiniMessage of the same final content is built three times -- one-shot with "
+            "MMPut*, and twice through a pseudo-random EDIT HISTORY per field (MMRenameField from a longer / shorter / equally long "
+            "temporary name, two renames in a row, rename onto an existing field, re-put over a field of another type or item count "
+            "with and without retainOldData, a decoy neighbour removed with MMRemoveField, MMMoveField from another MMessage, "
+            "MMSetWhat; recursively for sub-Messages) -- and each must serialise into an exact-size buffer to the C++ bytes, pass an "
+            "independent layout walk (name-length prefix == strlen(name)+1, every byte accounted for), read back and parse in C++ to "
+            "the same content, re-serialise from C++ to the same bytes and give the same gateway stream; the Python Message is built "
+            "with re-put / RemoveName histories too (MicroMessage and the Python class have no rename or move); every case's three-frame stream is sent by and fed (in segments of 1.."
             "5000 bytes) to the C++, mini and micro gateways, with a stream of cases whose frame sizes sweep scratch-18..scratch+12, "
             "2*scratch+-16 and random sizes up to 3*scratch.  Non-trivial = register 0 receives at least two add/prepend/pad operations.")
 
@@ -112,11 +119,11 @@ class CHECK(vlib.Check):
     def signature(self, failure):
         """what fails, with the case-specific numbers removed (so that a known-finding entry can match it)"""
         import re
-        return re.sub(r"\d+", "N", failure.get("signature") or "disagree")
+        return re.sub(r"\d+", "N", re.sub(r": [0-9a-f]{8,}$", "", failure.get("signature") or "disagree"))
 
     def fail_key(self, f):
         import re
-        return (f["kind"], re.sub(r"\d+", "N", re.sub(r"^\d+ ", "", f.get("signature", ""))))
+        return (f["kind"], re.sub(r"\d+", "N", re.sub(r": [0-9a-f]{8,}$", "", re.sub(r"^\d+ ", "", f.get("signature", "")))))
 
     def nontrivial(self, case):
         body = case.split("|", 1)[1]
